@@ -88,21 +88,62 @@ def rule_c(prog, rep):
         return None
     paths = Tracer(crate, classify).run_fn(f)
     st = crate.calls(f, lambda c: c.endswith('Node::<K, V>::strip'))
-    ret_o = b.origins(f.hir)
-    same = bool(st) and ret_o == b.origins(st[0][0]['args'][0]) and all(x.startswith('call(') for x in ret_o)
-    if paths and all('strip' in t for (ex, t, v) in paths) and same:
-        rep.ok('C09.c', 'Store::export', f.loc, 'strips the copy it returns, on every path')
+    strip_fns = [x for x in crate.top_fns() if x.path.endswith('::strip') and x.path.startswith('store::Node')]
+    # every use of SYSTEM_TOPIC_ROOT in export / strip must be an exact match of one segment (remove(ROOT), `== ROOT`, `!= ROOT`):
+    # a prefix test would also drop user keys such as `$SYSTEM/..`
+    inexact, exact = [], []
+    for g in [f] + strip_fns:
+        for body in [g] + crate.closures_of(g):
+            for nd, anc in walk(body.hir):
+                if nd.get('k') == 'path' and str(nd.get('path') or '').endswith('SYSTEM_TOPIC_ROOT'):
+                    chain = [a for a in anc if isinstance(a, dict)]
+                    par = next((a for a in reversed(chain) if a.get('k') in ('call', 'binary')), {})
+                    if par.get('k') == 'binary' and par.get('op') in ('Eq', 'Ne'):
+                        exact.append((g, par))
+                    elif par.get('k') == 'call' and short(callee(par)) in ('remove', 'remove_entry', 'eq', 'ne'):
+                        exact.append((g, par))
+                    else:
+                        inexact.append((g, par))
+    if inexact:
+        g, par = inexact[0]
+        how = short(callee(par)) if par.get('k') == 'call' else par.get('k')
+        rep.violation('C09.c', 'Store::export:exact-segment', loc(g, par), f'$SYS is matched with `{how}`: more than the one `$SYS` segment is left '
+                      'out of the export (user keys whose first segment merely starts with $SYS are lost on the next load)',
+                      key=f'C09.c/export/inexact/{how}')
+    if st:
+        ret_o = b.origins(f.hir)
+        same = ret_o == b.origins(st[0][0]['args'][0]) and all(x.startswith('call(') for x in ret_o)
+        if paths and all('strip' in t for (ex, t, v) in paths) and same:
+            rep.ok('C09.c', 'Store::export', f.loc, 'strips the copy it returns, on every path')
+        else:
+            rep.violation('C09.c', 'Store::export', f.loc, f'strip on every path={all("strip" in t for (ex, t, v) in paths)}, '
+                          f'returned value is the stripped one={same}', key='C09.c/export/strip')
+        s = strip_fns[0] if strip_fns else None
+        rm = [nd for nd, a in crate.calls(s, lambda c: short(c) == 'remove')] if s else []
+        if rm and any('SYSTEM_TOPIC_ROOT' in str(a)[:300] for a in rm[0]['args']):
+            rep.ok('C09.c', 'Node::strip', s.loc, 'removes the SYSTEM_TOPIC_ROOT child')
+        else:
+            rep.violation('C09.c', 'Node::strip', s.loc if s else f.loc, 'does not remove SYSTEM_TOPIC_ROOT', key='C09.c/strip')
     else:
-        rep.violation('C09.c', 'Store::export', f.loc, f'strip on every path={all("strip" in t for (ex, t, v) in paths)}, '
-                      f'returned value is the stripped one={same}', key='C09.c/export/strip')
-    s = crate.fn('store::Node::<K, V>::strip') if crate.has_fn('store::Node::<K, V>::strip') else None
-    if s is None:
-        s = [x for x in crate.top_fns() if x.path.endswith('::strip') and x.path.startswith('store::Node')][0]
-    rm = [nd for nd, a in crate.calls(s, lambda c: short(c) == 'remove')]
-    if rm and any('SYSTEM_TOPIC_ROOT' in str(a)[:300] for a in rm[0]['args']):
-        rep.ok('C09.c', 'Node::strip', s.loc, 'removes the SYSTEM_TOPIC_ROOT child')
-    else:
-        rep.violation('C09.c', 'Node::strip', s.loc, 'does not remove SYSTEM_TOPIC_ROOT', key='C09.c/strip')
+        # filtering form: the exported children are the root's children with `segment != SYSTEM_TOPIC_ROOT`
+        flt = [nd for nd, a in crate.walk_fn(f) if nd.get('k') == 'call' and short(callee(nd)) in ('filter', 'retain')]
+        keep_ne = False
+        for fl in flt:
+            for a in fl['args']:
+                if a.get('k') == 'closure':
+                    body = crate.closure(a['def']).hir
+                    while body.get('k') == 'block' and not body.get('stmts') and 'tail' in body:
+                        body = body['tail']
+                    e, pol = body, True
+                    while e.get('k') == 'unary' and e.get('op') == 'Not':
+                        e, pol = e['e'], not pol
+                    if e.get('k') == 'binary' and 'SYSTEM_TOPIC_ROOT' in str(e)[:1500] and ((e['op'] == 'Ne') == pol) and e['op'] in ('Ne', 'Eq'):
+                        keep_ne = True
+        if keep_ne and not inexact:
+            rep.ok('C09.c', 'Store::export', f.loc, 'exports the children of the root except the one named SYSTEM_TOPIC_ROOT')
+        elif not inexact:
+            rep.violation('C09.c', 'Store::export', f.loc, 'neither strips the exported copy nor filters the `$SYS` child by equality',
+                          key='C09.c/export/strip')
     for name, src in ((f'{J3}::synchronous', f'{CORE}::export'), (f'{CORE}::export_for_persistence', f'{STORE}::export_for_persistence')):
         g = crate.fn(name)
         if crate.calls(g, lambda c: c == src):
